@@ -747,6 +747,8 @@ class Engine:
             ty = dty
         if isinstance(ty, TDict):
             v = self.coerce(v, ty.val, st)
+            if isinstance(idx, _PyTuple):
+                idx = self.coerce(idx, ty.key, st)        # a tuple key built in place: (a, b)
             return Val(ty, ty.mk(z3.Store(ty.dom(base.t), idx.t, True), z3.Store(ty.vals(base.t), idx.t, v.t)))
         if isinstance(ty, TList):
             i = idx.t
